@@ -93,7 +93,11 @@ def stringValue (s : Url) : Url :=
   | [] => []
   | q :: _ => ((unescape q s).drop 1).dropLast
 
-def strip (s : Url) : Url := ((s.dropWhile isSpace).reverse.dropWhile isSpace).reverse
+/-- CSS white space: what `urivalue` strips from the text between the parentheses (repaired in /repo: before,
+`str.strip()` also removed a no-break space or U+3000 at the edge of a bare URL) -/
+def isCssWs (c : Nat) : Bool := c == 32 || c == 9 || c == 10 || c == 12 || c == 13
+
+def strip (s : Url) : Url := ((s.dropWhile isCssWs).reverse.dropWhile isCssWs).reverse
 
 /-- `helper.urivalue` -/
 def uriValue (u : Url) : Url :=
